@@ -5,7 +5,7 @@
     Boost, iostreams and the allocator are below the model and are covered only
     by the sanitizer-instrumented correspondence run. *)
 From Coq Require Import List NArith ZArith Bool Arith.
-Require Import Celma.ArgH.ArgFile Celma.ArgH.ArgFileSafe.
+Require Import Celma.ArgH.ArgFile Celma.ArgH.ArgFileSafe Celma.ArgH.SubGroup Celma.ArgH.SubGroupProofs.
 Import ListNotations.
 Require Import Celma.Common.Res Celma.ArgH.Key Celma.ArgH.Lex Celma.ArgH.Handler Celma.ArgH.Sources
                Celma.ArgH.Alloc Celma.ArgH.SafeProofs.
@@ -55,6 +55,13 @@ Theorem C04_self_including_file_refused :
   = Err ERuntime.
 Proof. exact self_including_file_refused. Qed.
 Print Assumptions C04_self_including_file_refused.
+
+(** ... and with sub-group arguments (ArgH/SubGroup.v): for ANY words, any
+    main handler and any sub-group handlers the evaluation comes back *)
+Theorem C04_subgroups_total :
+  forall c inits sub_inits argv, nofault (eval_sg false c inits sub_inits argv).
+Proof. exact eval_sg_nofault. Qed.
+Print Assumptions C04_subgroups_total.
 
 (** the hand-sized buffers: the program-name copy holds the terminator (after
     the repair; the pinned size overflows by one byte for every name), the
